@@ -41,11 +41,14 @@ func coreC19(tier string) []RunSpec {
 	out = append(out, RunSpec{Profile: "core:restore-continue-rot", Params: map[string]int{"scenario": 1, "rot": 1}})
 	out = append(out, RunSpec{Profile: "core:many-outputs", Params: map[string]int{"scenario": 2}})
 	out = append(out, RunSpec{Profile: "core:many-outputs-then-rotation", Params: map[string]int{"scenario": 2, "rot": 1}})
+	for k := 0; k < 2; k++ {
+		out = append(out, RunSpec{Profile: "core:pending-across-rotation-reclaim", Params: map[string]int{"scenario": 5, "fee": 0, "k": k}})
+	}
 	// everything spent, then restore, continue, restore
 	out = append(out, RunSpec{Profile: "core:spend-all-restore", Params: map[string]int{"scenario": 4, "fee": 0}})
 	out = append(out, RunSpec{Profile: "core:melt-all-restore", Params: map[string]int{"scenario": 4, "melt": 1, "fee": 0}})
 	// known finding: SIG_ALL token from an untrusted mint, swap-to-trusted fails, received again
-	out = append(out, RunSpec{Profile: "core:sigall-crossmint-again", Params: map[string]int{"scenario": 3, "mints": 2, "fee": 0}})
+	out = append(out, RunSpec{Profile: "core:sigall-crossmint-again", Params: map[string]int{"scenario": 3, "mints": 2, "fee": 0, "fee2": 0}})
 	return out
 }
 
@@ -65,7 +68,11 @@ func runC19(rc *RunCtx) {
 	_, crashScenario := rc.Spec.Params["crashop"]
 	if rc.P("mints", 0) == 2 || (!fixedScenario && !crashScenario && T.Chance("cfg.mints2", 1, 3)) {
 		// two mints: receives from an untrusted mint with swap-to-trusted, mint-to-mint swaps
-		fees = append(fees, c17Fees[T.Choose("cfg.fee2", 3)])
+		f2 := T.Choose("cfg.fee2", 3)
+		if v, ok := rc.Spec.Params["fee2"]; ok {
+			f2 = v
+		}
+		fees = append(fees, c17Fees[f2])
 	}
 	ww := rc.NewWalletWorld(ln, fees, 2)
 	for i := range ww.Wallets {
@@ -83,6 +90,51 @@ func runC19(rc *RunCtx) {
 		return
 	case 2:
 		c19ManyOutputs(ww, rc.P("rot", 0) == 1)
+		return
+	case 5:
+		// proofs stay pending (a melt in flight) while the mint rotates its keyset; the payment fails,
+		// the wallet reclaims them (outputs on the NEW keyset) and goes on: no counter may be reused
+		w := ww.Wallets[0]
+		mint := mintNameOfURL(ww.node(w).Mint)
+		ww.step = 0
+		ww.W.LN.ForceNextPay = "pending"
+		inv := ww.W.LN.NewExternalInvoice(20 * 1000)
+		ww.op("w.melt")
+		ww.W.WalletOp(w, ww.name("melt."+w), nil, func(wl *wallet.Wallet) {
+			if q, e := wl.RequestMeltQuote(inv.Bolt11, ww.mintURL(mint)); e == nil {
+				ww.PendQ[w] = append(ww.PendQ[w], q.Quote)
+				wl.Melt(q.Quote)
+			}
+		})
+		ww.W.LN.ForceNextPay = ""
+		ww.StepRotate([]uint64{0, 100})
+		mintSome := func(amount uint64, label string) {
+			ww.op(label)
+			ww.W.WalletOp(w, ww.name("m."+w), nil, func(wl *wallet.Wallet) {
+				q, e := wl.RequestMint(amount, ww.mintURL(mint))
+				if e != nil {
+					return
+				}
+				if mq := ww.W.Book.Mint(mint).MQ[q.Quote]; mq != nil {
+					ww.W.LN.PayExternal(mq.Hash)
+				}
+				wl.MintTokens(q.Quote)
+			})
+		}
+		mintSome(33, "w.mint(after rotation)")
+		checked = ww.CheckCounters(checked)
+		for _, k := range ww.W.LN.InflightKeys() {
+			ww.W.LN.ResolveInflight(k, false)
+		}
+		ww.op("w.reclaim remove=false")
+		ww.W.WalletOp(w, ww.name("reclaim."+w), nil, func(wl *wallet.Wallet) { wl.ReclaimUnspentProofs() })
+		checked = ww.CheckCounters(checked)
+		mintSome(21, "w.mint(after reclaim)")
+		checked = ww.CheckCounters(checked)
+		ww.Settle()
+		ww.restoreWallet(w, false, "pending across rotation")
+		rc.S.Probe("c19_pending_across_rotation")
+		rc.Nontrivial = true
 		return
 	case 4:
 		c19SpendAllRestore(ww, rc.P("melt", 0) == 1)
